@@ -185,6 +185,8 @@ def build_key(spec, arr, D, OF):
                 k = d.letter if n_ % 2 == 0 else d.name
             if v[0] == "item":
                 key[k] = d.items[v[1]]
+                if spec.get("np_items") and isinstance(key[k], int):
+                    key[k] = np.int64(key[k])  # an item taken from a numpy array or a pandas index
             elif v[0] == "subset":
                 key[k] = v[2]
             else:
